@@ -1302,8 +1302,50 @@ fn search_bridge(obs: &[&str]) {
         }
         if exited != Some(true) { found.entry("exit").or_insert(detail.clone()); }
     }
+    // direct-connection mode: `varlink bridge --connect <address of the service>`: two requests, then the client closes its side
+    {
+        explored += 1;
+        seen.lock().unwrap().clear();
+        if let Ok(mut child) = std::process::Command::new(&bin).arg("bridge").arg("--connect").arg(format!("unix:{}", sock.display()))
+            .stdin(std::process::Stdio::piped()).stdout(std::process::Stdio::piped()).stderr(std::process::Stdio::piped()).spawn() {
+            let mut stdin = child.stdin.take().unwrap();
+            let stdout = child.stdout.take().unwrap();
+            let (tx, rx) = std::sync::mpsc::channel::<Value>();
+            std::thread::spawn(move || {
+                let mut r = BufReader::new(stdout);
+                loop {
+                    let mut buf = Vec::new();
+                    match r.read_until(0, &mut buf) { Ok(n) if n > 0 => {}, _ => break }
+                    if buf.last() == Some(&0) { buf.pop(); }
+                    if let Ok(v) = serde_json::from_slice::<Value>(&buf) { if tx.send(v).is_err() { break; } }
+                }
+            });
+            let mut got = Vec::new();
+            for req in [json!({"method": "org.example.Ping"}), json!({"method": "org.example.Ping", "parameters": {"n": 2}})] {
+                let mut b = serde_json::to_vec(&req).unwrap(); b.push(0);
+                if stdin.write_all(&b).is_err() || stdin.flush().is_err() { break; }
+                match rx.recv_timeout(Duration::from_millis(8000)) { Ok(v) => got.push(v), Err(_) => break }
+            }
+            drop(stdin);
+            let t0 = std::time::Instant::now();
+            let mut exited: Option<bool> = None;
+            while t0.elapsed() < Duration::from_secs(5) { if let Ok(Some(st)) = child.try_wait() { exited = Some(st.success()); break; } std::thread::sleep(Duration::from_millis(10)); }
+            if exited.is_none() { let _ = child.kill(); }
+            let out = child.wait_with_output().ok();
+            let stderr = out.map(|o| String::from_utf8_lossy(&o.stderr).to_string()).unwrap_or_default();
+            if got != vec![pong.clone(), pong.clone()] || exited != Some(true) || stderr.contains("panicked") {
+                found.entry("connect").or_insert(json!({"invocation": "varlink bridge --connect unix:<service>", "replies": got, "expected": [pong.clone(), pong.clone()],
+                    "exit_ok_after_stdin_closed": exited, "stderr": stderr.chars().take(500).collect::<String>()}));
+            }
+        }
+    }
     let _ = std::fs::remove_dir_all(std::env::temp_dir().join(format!("vx-c18-{}", std::process::id())));
     for ob in obs {
+        if *ob == "C18.no-panic" || *ob == "C18.connect" {
+            let f = found.get("connect");
+            emit(ob, f.is_some(), explored, f.cloned().unwrap_or(Value::Null));
+            continue;
+        }
         let class = match *ob { "C18.relay" | "C18.copy" => "relay", "C18.request" => "request", "C18.getinfo" => "getinfo", "C18.oneway" => "oneway", _ => "none" };
         let f = found.get(class).or_else(|| found.get("relay")).or_else(|| found.get("request")).or_else(|| found.get("getinfo")).or_else(|| found.get("oneway")).or_else(|| found.get("exit"));
         emit(ob, f.is_some(), explored, f.cloned().unwrap_or(Value::Null));
